@@ -4,7 +4,7 @@
 # (fails with the patch, passes without) and writes meta.json.
 cd "$(dirname "$0")/.."
 src=$1; id=$2; name=$3; needs=$4
-dst=seeded/$id
+dst=seeded/${SEED_DIR:-$id}
 mkdir -p "$dst"
 cp "$src/SEED/patch.diff" "$dst/patch.diff"
 demo=$(ls "$src"/SEED/*demo*test.go* 2>/dev/null | head -1)
